@@ -1,6 +1,45 @@
-(* C04 -- placeholder while the pipeline is brought up *)
-From CppcmsV Require Import Base.Tac C04.Defs.
+(* C04 -- XSS filter output contains only white-listed markup and is stable.
+   Only property theorems here, each closed by `exact <lemma>`; proofs are in Proofs*.v.
+   Rule sets are universally quantified through the functions tag_kind / entity_ok / bool_ok / val_ok
+   (rules::valid_tag, valid_entity, valid_boolean_property, valid_property) and the three flags;
+   the encoding validators enc_valid / enc_vof (cppcms::encoding::valid / validate_or_filter) are
+   universally quantified functions constrained only by the stated premises. *)
+From CppcmsV Require Import Base.Tac Base.Sweep C04.Defs C04.Proofs1.
 Local Open Scope N_scope.
-Theorem split_nil : split [] = [].
-Proof. reflexivity. Qed.
-Print Assumptions split_nil.
+
+(* ---- 1. verdicts: both entry points agree, valid input is returned unchanged, validation implies
+        well-formedness in the declared encoding ---- *)
+Theorem validate_iff_flag :
+  forall xhtml comments numeric tag_kind entity_ok bool_ok val_ok has_enc enc_valid enc_vof,
+  enc_agree enc_valid enc_vof -> forall m x,
+  fst (validate_and_filter xhtml comments numeric tag_kind entity_ok bool_ok val_ok has_enc enc_vof m x)
+  = validate xhtml comments numeric tag_kind entity_ok bool_ok val_ok has_enc enc_valid x.
+Proof. exact validate_flag. Qed.
+Print Assumptions validate_iff_flag.
+
+Theorem valid_unchanged :
+  forall xhtml comments numeric tag_kind entity_ok bool_ok val_ok has_enc enc_valid enc_vof,
+  enc_agree enc_valid enc_vof -> forall m x,
+  validate xhtml comments numeric tag_kind entity_ok bool_ok val_ok has_enc enc_valid x = true ->
+  filter xhtml comments numeric tag_kind entity_ok bool_ok val_ok has_enc enc_vof m x = x.
+Proof. exact valid_unchanged_l. Qed.
+Print Assumptions valid_unchanged.
+
+Theorem validate_encoding :
+  forall xhtml comments numeric tag_kind entity_ok bool_ok val_ok has_enc enc_valid x,
+  has_enc = true ->
+  validate xhtml comments numeric tag_kind entity_ok bool_ok val_ok has_enc enc_valid x = true ->
+  enc_valid x = true.
+Proof. exact validate_encoding_l. Qed.
+Print Assumptions validate_encoding.
+
+(* ---- 2. tokeniser: the tokens are consecutive pieces of the input, each of the shape its type says;
+        in particular every < > & of the input is inside a token that is an entity, a tag, a comment
+        or invalid - a plain token has none ---- *)
+Theorem tokens_partition_input : forall x, concat (map snd (split x)) = x.
+Proof. exact split_partition. Qed.
+Print Assumptions tokens_partition_input.
+
+Theorem tokens_have_their_shape : forall x, Forall (fun tk => tok_form (fst tk) (snd tk)) (split x).
+Proof. exact split_forms. Qed.
+Print Assumptions tokens_have_their_shape.
